@@ -276,6 +276,55 @@ pub fn run(ctx: &Ctx, rep: &mut Report) {
             }
         });
     }
+    // ---- long text values: one inserted sequence (valid or invalid) at every position of fillers of every length 0..=72,
+    //      and the round trip String -> bytes -> String of the valid ones
+    {
+        let inserts: [&[u8]; 12] = [
+            &[], &[0xFF], &[0x80], &[0xC0, 0xAF], &[0xE2, 0x82], &[0xED, 0xA0, 0x80], &[0xF4, 0x90, 0x80, 0x80], &[0xF0, 0x9F, 0x98],
+            &[0xC3, 0xA9], &[0xE2, 0x82, 0xAC], &[0xF0, 0x9F, 0x98, 0x81], &[0x00],
+        ];
+        let fillers: [&str; 3] = ["a", "é", "a€😁z"];
+        let radices = [73u64, 73, inserts.len() as u64, fillers.len() as u64];
+        let n = product(&radices);
+        ctx.family(
+            rep,
+            "text-long-values",
+            "filler text {ASCII, 2-byte scalars, mixed 1/3/4-byte scalars} of every length 0..=72 symbols with one sequence {nothing, FF, 80, C0 AF, E2 82, ED A0 80, F4 90 80 80, F0 9F 98, é, €, 😁, NUL} inserted at every symbol position: accepted iff valid UTF-8, and then equal to the text; String -> bytes is the UTF-8 image",
+            n,
+            true,
+            |i, rep| {
+                let d = decode(i, &radices);
+                let (len, pos) = (d[0] as usize, d[1] as usize);
+                if pos > len {
+                    rep.count("skipped-position-beyond-length");
+                    return;
+                }
+                let f: Vec<char> = fillers[d[3] as usize].chars().collect();
+                let mut bytes: Vec<u8> = Vec::new();
+                let mut buf = [0u8; 4];
+                for k in 0..len {
+                    if k == pos {
+                        bytes.extend_from_slice(inserts[d[2] as usize]);
+                    }
+                    bytes.extend_from_slice(f[k % f.len()].encode_utf8(&mut buf).as_bytes());
+                }
+                if pos == len {
+                    bytes.extend_from_slice(inserts[d[2] as usize]);
+                }
+                let expect = std::str::from_utf8(&bytes).ok().map(|x| x.to_string());
+                let got = guard(|| OptionValueString::try_from(bytes.clone()).ok().map(|x| x.0));
+                let back = expect.as_ref().map(|t| guard(|| Vec::<u8>::from(OptionValueString(t.clone()))));
+                if got.as_ref().ok() != Some(&expect) {
+                    rep.violation(viol("text-long-values", i, "C06/utf8-validity", format!("{} bytes -> {:?}, expected {:?}", bytes.len(), got.map(|g| g.is_some()), expect.is_some()), Json::obj().set("bytes", hex(&bytes))));
+                } else if back.as_ref().map(|b| b.as_ref().ok() != Some(&bytes)).unwrap_or(false) {
+                    rep.violation(viol("text-long-values", i, "C06/text-encoding", "String -> bytes is not the UTF-8 image of the text".to_string(), Json::obj().set("bytes", hex(&bytes))));
+                } else {
+                    rep.count(if expect.is_some() { "utf8-accepted" } else { "invalid-utf8-rejected" });
+                    rep.bucket(&("long", len.min(9), d[2], expect.is_some()));
+                }
+            },
+        );
+    }
     // ---- typed accessors on Packet: every list of <= 3 values from the boundary set
     {
         let vals: [u64; 8] = [0, 1, 255, 256, 65535, 65536, u32::MAX as u64, u32::MAX as u64 - 255];
